@@ -219,7 +219,7 @@ def _step_obl(o, name, root, n, m, d, sfx, tag, with_limit, cfg, tier):
                 if with_limit:
                     d["WITH_LIMIT"] = 1
                     roots.append("vk_set_limit")
-                o.append(Obl(f"step{tag}_{name}_n{n}_m{m}{sfx}", "step.c", [U(roots, cfg, stubs=stubs)], defs=d, unwind=17,
+                o.append(Obl(f"step{tag}_{name}_n{n}_m{m}{sfx}", "step.c", [U(roots, cfg, stubs=stubs)], defs=d, unwind=17, harness_unwind=17,
                              maxcpy=16, mem_gb=16, timeout=(600 if tier == Q else 1800), weight=10 + m,
                              allow_vacuous=bool(sfx)))
 
@@ -331,8 +331,26 @@ def shorten(tier):
                 witness=(n == 3), mem_gb=8, timeout=(240 if tier == Q else 1200)) for n in lens(tier, (0, 1, 3, 4, 6), range(0, 12))]
 
 
+def twinsteps(tier):
+    o = []
+    ops = [("nop", 0, (0,), {"NOP": 1}), ("set_port", 0, (2,), {}), ("set_username", 0, (1,), {}), ("set_password", 0, (1,), {}),
+           ("set_protocol", 0, (3,), {}), ("set_search", 1, (2,), {}), ("set_hash", 1, (2,), {})]
+    for name, heavy, ms, extra in ops:
+        if heavy and tier == Q:
+            continue
+        for n in lens(tier, (8,), (6, 8, 10)):
+            for m in ms:
+                d = {"N": n, "M": m, "BN": 15, "KERNEL": "F_vk_tw_" + name}
+                d.update(extra)
+                o.append(Obl(f"twinstep_{name}_n{n}_m{m}", "twinstep.c", [U("vk_tw_" + name, stubs=STR_STUBS)], defs=d, unwind=17,
+                             harness_unwind=17, maxcpy=16, mem_gb=16, timeout=(600 if tier == Q else 2400), weight=12))
+    return o
+
+
 def prop_C04(tier):
-    return twins(tier) + shorten(tier)
+    # lock-step setter twins (harness/twinstep.c) were built and measured: even the identity step (build the ada::url from
+    # the aggregator's getters and serialise it) runs out of 16 GB -> attempted in the thorough tier only, at the smallest size
+    return twins(tier) + shorten(tier) + [x for x in twinsteps(tier) if tier != Q and x.name in ("twinstep_nop_n6_m0", "twinstep_set_port_n6_m2")]
 
 
 def prop_C12(tier):
@@ -455,7 +473,7 @@ def fastpath(tier):
             if https:
                 d["HTTPS"] = 1
             o.append(Obl(f"fastpath_{'https' if https else 'http'}_t{t}", "fastpath.c", [U("vk_fast_path", stubs=STR_STUBS)], defs=d,
-                         unwind=17, unwindset=["ref_ipv4_parse.2:4", "ref_ipv4_parse.3:4"], maxcpy=16, mem_gb=12, witness=(t >= 3),
+                         unwind=t + 3, harness_unwind=17, maxcpy=16, mem_gb=12, witness=(t >= 3),
                          timeout=(300 if tier == Q else 1800), weight=5 + t))
     return o
 
